@@ -67,7 +67,7 @@ pub struct RSeg {
 fn wide(fit: u64) -> impl Strategy<Value = u64> {
     // mostly inside the width, then the boundary, then far outside
     prop_oneof![
-        12 => 0..=fit,
+        60 => 0..=fit,
         1 => Just(fit),
         1 => Just(fit + 1),
         1 => Just(u32::MAX as u64),
@@ -75,13 +75,13 @@ fn wide(fit: u64) -> impl Strategy<Value = u64> {
     ]
 }
 fn wide32(fit: u32) -> impl Strategy<Value = u32> {
-    prop_oneof![12 => 0..=fit, 1 => Just(fit), 1 => Just(fit + 1), 1 => any::<u32>()]
+    prop_oneof![45 => 0..=fit, 1 => Just(fit), 1 => Just(fit + 1), 1 => any::<u32>()]
 }
 fn rhf() -> impl Strategy<Value = RHf> {
-    (wide(65535), wide(65535), wide32(255), prop_oneof![14 => Just(6u8), 1 => 0u8..12]).prop_map(|(ing, eg, exp, mac_len)| RHf { ing, eg, exp, mac_len })
+    (wide(65535), wide(65535), wide32(255), prop_oneof![40 => Just(6u8), 1 => 0u8..12]).prop_map(|(ing, eg, exp, mac_len)| RHf { ing, eg, exp, mac_len })
 }
 fn opt<T: std::fmt::Debug + Clone + 'static>(s: impl Strategy<Value = T> + 'static, absent: u32) -> impl Strategy<Value = Option<T>> {
-    prop_oneof![absent => Just(None), 20 => s.prop_map(Some)]
+    prop_oneof![absent => Just(None), 40 => s.prop_map(Some)]
 }
 fn rpeer() -> impl Strategy<Value = RPeer> {
     (any::<u64>(), wide(65535), wide32(65535), opt(rhf(), 1)).prop_map(|(ia, ifid, mtu, hf)| RPeer { ia, ifid, mtu, hf })
@@ -91,8 +91,8 @@ fn junk() -> impl Strategy<Value = Vec<u8>> {
 }
 fn rentry() -> impl Strategy<Value = REntry> {
     (
-        prop_oneof![30 => Just(true), 1 => Just(false)],
-        prop_oneof![30 => Just(HbMode::Valid), 1 => junk().prop_map(HbMode::JunkHb), 1 => junk().prop_map(HbMode::JunkBody)],
+        prop_oneof![60 => Just(true), 1 => Just(false)],
+        prop_oneof![50 => Just(HbMode::Valid), 1 => junk().prop_map(HbMode::JunkHb), 1 => junk().prop_map(HbMode::JunkBody)],
         any::<u64>(),
         any::<u64>(),
         any::<u32>(),
@@ -116,13 +116,16 @@ fn rentry() -> impl Strategy<Value = REntry> {
         })
 }
 pub fn rseg() -> impl Strategy<Value = RSeg> {
+    rseg_sized(5)
+}
+pub fn rseg_sized(max_entries: usize) -> impl Strategy<Value = RSeg> {
     (
         prop_oneof![
             20 => (prop_oneof![10 => 0i64..=u32::MAX as i64, 1 => Just(u32::MAX as i64 + 1), 1 => Just(-1i64), 1 => any::<i64>()], wide32(65535))
                 .prop_map(|(ts, seg_id)| InfoMode::Valid { ts, seg_id }),
             1 => junk().prop_map(InfoMode::Junk),
         ],
-        proptest::collection::vec(rentry(), 0..5),
+        proptest::collection::vec(rentry(), 0..max_entries),
     )
         .prop_map(|(info, entries)| RSeg { info, entries })
 }
@@ -292,8 +295,8 @@ pub struct RResp {
 pub fn rresp() -> impl Strategy<Value = RResp> {
     (
         proptest::collection::vec(
-            (prop_oneof![4 => 1i32..=3, 1 => Just(0i32), 1 => any::<i32>()], proptest::collection::vec(rseg(), 0..3)),
-            0..5,
+            (prop_oneof![4 => 1i32..=3, 1 => Just(0i32), 1 => any::<i32>()], proptest::collection::vec(rseg_sized(3), 0..3)),
+            0..4,
         ),
         0u8..3,
     )
